@@ -471,7 +471,7 @@ WriteTime(h, mi, s, ns) == Pad2(h) \o <<58>> \o Pad2(mi) \o <<58>> \o Pad2(s) \o
 \* civil date from day number (inverse of DaysFromCivil), Hinnant's civil_from_days
 CivilFromDays(z0) ==
     LET z == z0 + 10957 + 719468
-        era == (IF z >= 0 THEN z ELSE z - 146096) \div 146097
+        era == z \div 146097                 \* TLA+ \div is floor division: no adjustment for negative day numbers
         doe == z - era * 146097
         yoe == (doe - doe \div 1460 + doe \div 36524 - doe \div 146096) \div 365
         y == yoe + era * 400
